@@ -322,14 +322,20 @@ func RunSched(prop, tier string, builds []Built, budget time.Duration) []explore
 
 // SchedCheck is the whole top-level main of a scheduler-based generated-code property.
 func SchedCheck(prop string, cfgsQuick, cfgsThorough []ProbeConfig, bound map[string]int, assume []string) {
+	SchedCheck2(prop, cfgsQuick, cfgsThorough, nil, nil, bound, assume)
+}
+
+// SchedCheck2 additionally runs the property's scenarios for the shapes probe in the given
+// configurations.
+func SchedCheck2(prop string, cfgsQuick, cfgsThorough, shapesQuick, shapesThorough []ProbeConfig, bound map[string]int, assume []string) {
 	c := common.New(prop, "model_checking")
-	cfgs := cfgsQuick
+	cfgs, shapes := cfgsQuick, shapesQuick
 	budget := 110 * time.Second
 	if c.Tier == "thorough" {
-		cfgs = cfgsThorough
+		cfgs, shapes = cfgsThorough, shapesThorough
 		budget = 13 * time.Minute
 	}
-	builds := BuildAll("exec", cfgs)
+	builds := BuildBoth(cfgs, shapes)
 	for _, b := range builds {
 		if b.Err != nil {
 			probe.Cleanup()
